@@ -1,12 +1,12 @@
 import Pcore.Proofs.LatSoundAlias
-import Pcore.Proofs.LatTransAll
+import Pcore.Proofs.LatTransDMain
 set_option linter.unusedSimpArgs false
 set_option linter.unusedVariables false
 /-! C01 main lemma: all receivers put together, by induction on the summed weight. -/
 namespace Pcore.Lat
 variable (cfg : Cfg) (sfh : Bool)
 
-/-- `Type[X] ⊒ Type[Y]` and `u ∈ Type[Y]`: soundness is transitivity `X ⊒ Y ⊒ u` (C03, fragment `Ty.TF`) -/
+/-- `Type[X] ⊒ Type[Y]` and `u ∈ Type[Y]`: soundness is transitivity `X ⊒ Y ⊒ u` (C03 stage 4, fragment `Ty.TA`) -/
 theorem recv_typ (hl : ∀ s, (cfg.lower s).length = s.length) (x b : Ty) (v : Val) (H : Hyp cfg sfh (.typ x) b v)
     (h : asgRecv cfg sfh (.typ x) b = true) (hi : inst cfg sfh b v = true) : inst cfg sfh (.typ x) v = true := by
   unfold asgRecv at h
@@ -18,9 +18,10 @@ theorem recv_typ (hl : ∀ s, (cfg.lower s).length = s.length) (x b : Ty) (v : V
   unfold inst at hi ⊢
   cases v <;> simp only [] at hi ⊢ <;> (first | contradiction | skip)
   rename_i u
+  have wa := H.wa; unfold Ty.WF at wa
   cases H.tv with
   | typ _ hu hwu =>
-    exact trans_all cfg sfh hl _ x y u (Nat.le_refl _) ⟨fa, fb, hu, wb, hwu⟩ h hi
+    exact transD cfg sfh hl x y u fa fb hu wa wb hwu h hi
 
 /-- the receiver's rule is sound (for a right-hand side that `GuardedIsAssignable` hands to the receiver) -/
 theorem recv_sound (hl : ∀ s, (cfg.lower s).length = s.length) (n : Nat) (ih : Sound cfg sfh n) (a b : Ty) (v : Val)
